@@ -143,7 +143,7 @@ fn main() {
             let mut rep = Report::new();
             let r = std::panic::catch_unwind(std::panic::AssertUnwindSafe(|| run(&cfg2, &mut rep)));
             if r.is_err() {
-                rep.inconclusive.push("harness panic outside a guarded library call".to_string());
+                rep.inconclusive.push(format!("harness panic outside a guarded library call: {}", take_last_panic()));
             }
             rep
         })
